@@ -119,6 +119,20 @@ SanitizeTokV(tok, L, D, ve) ==
     ELSE [r |-> "tok", tok |-> tok]
 SanitizeTok(tok, L, D) == SanitizeTokV(tok, L, D, FALSE)
 
+\* Every attribute is judged on its own: what the filter does with one attribute never depends on the OTHER attributes of
+\* the element (their values, their number, their order, or the order in which a set of them is visited).  The image of a
+\* tag is the concatenation of the images of its one-attribute tags; the tag raises iff one of them does.
+RECURSIVE CatImages(_, _, _, _)
+CatImages(tok, i, L, D) ==
+    IF i > Len(tok.a) THEN <<>>
+    ELSE LET one == SanitizeTok([tok EXCEPT !.a = <<tok.a[i]>>], L, D) IN
+         (IF one.r = "tok" THEN one.tok.a ELSE <<>>) \o CatImages(tok, i + 1, L, D)
+AttrsIndependent(tok, L, D) ==
+    (IsTag(tok) /\ tok.t # "EndTag" /\ AllowedEl(tok, L)) =>
+        LET r == SanitizeTok(tok, L, D)
+            anyRaise == \E i \in 1..Len(tok.a) : SanitizeTok([tok EXCEPT !.a = <<tok.a[i]>>], L, D).r = "raise"
+        IN (r.r = "raise") = anyRaise /\ (r.r = "tok" => r.tok.a = CatImages(tok, 1, L, D))
+
 \* attribute values for which the model also allows "drop" (urlsplit ValueError, see UrlScheme)
 MayAlsoDrop(x, L) == AttrKey(x) \in L.uri /\ UriMayAlsoDrop(x[3])
 \* does the observed output token agree with the model's (up to MayAlsoDrop)?
